@@ -12,6 +12,7 @@
 package sched
 
 import (
+	"crypto/sha256"
 	"fmt"
 	"runtime"
 	"strings"
@@ -32,6 +33,7 @@ type PointRec struct {
 	RunningEnabled bool   // KindSched: alternative 0 is "keep running the current thread"
 	Label          string // operation the *chosen* thread is about to perform / env label
 	Thread         int    // chosen thread id (KindSched) or choosing thread (KindEnv)
+	StateKey       string // TrackState: canonical key of the global state in which this choice is made
 }
 
 type thread struct {
@@ -42,6 +44,8 @@ type thread struct {
 	label string
 	done  bool
 	atPt  bool
+	hist  [32]byte // TrackState: running hash of everything this thread did and observed
+	steps int      // points this thread has reached
 }
 
 // Abort is the panic value used to unwind parked threads when an execution is torn down.
@@ -65,6 +69,70 @@ type S struct {
 	Livelock bool
 	Log      []string // observation log (appended by harnesses through Logf)
 	wg       sync.WaitGroup
+	ghist    [32]byte // TrackState: running hash of the ordered observation log
+}
+
+// TrackState makes the scheduler compute a canonical state key at every recorded choice point
+// (stateful exploration). The key is built from: per thread, the running hash of the labels
+// of the points it reached, the values it observed (Observe), the environment answers it got
+// and the log lines it wrote, plus whether it is finished or parked and at which operation;
+// the running hash of the ordered observation log (so that oracles over the order of logged
+// events give the same verdict for every path merged into one state); and StateKeyFn(), the
+// scenario's fingerprint of the shared state that threads can reach outside hooked operations.
+var TrackState bool
+
+// StateKeyFn is the scenario's contribution to the state key (may be nil).
+var StateKeyFn func() string
+
+func fold(h [32]byte, parts ...string) [32]byte {
+	hh := sha256.New()
+	hh.Write(h[:])
+	for _, p := range parts {
+		hh.Write([]byte{0})
+		hh.Write([]byte(p))
+	}
+	var out [32]byte
+	copy(out[:], hh.Sum(nil))
+	return out
+}
+
+// Observe folds a value the running thread has just read from shared state into its history
+// (no-op unless TrackState). Shims and scenarios call it for every result of a hooked
+// operation that can differ between interleavings.
+func Observe(v string) {
+	s := current
+	if s == nil || !TrackState {
+		return
+	}
+	s.mu.Lock()
+	if s.cur != nil {
+		s.cur.hist = fold(s.cur.hist, "obs", v)
+	}
+	s.mu.Unlock()
+}
+
+// ThreadSteps returns the number of points the running thread has reached so far.
+func ThreadSteps() int {
+	s := current
+	if s == nil || s.cur == nil {
+		return 0
+	}
+	return s.cur.steps
+}
+
+// stateKeyLocked computes the canonical key of the current global state.
+func (s *S) stateKeyLocked(extra string) string {
+	hh := sha256.New()
+	for _, t := range s.threads {
+		fmt.Fprintf(hh, "%d|%v|%v|%s|", t.id, t.done, t.atPt, t.label)
+		hh.Write(t.hist[:])
+	}
+	hh.Write(s.ghist[:])
+	hh.Write([]byte(extra))
+	if StateKeyFn != nil {
+		hh.Write([]byte(StateKeyFn()))
+	}
+	return string(hh.Sum(nil)[:16])
 }
 
 var (
@@ -240,6 +308,10 @@ func (s *S) point(label string, guard func() bool) {
 	}
 	t := s.cur
 	t.guard, t.label, t.atPt = guard, label, true
+	t.steps++
+	if TrackState {
+		t.hist = fold(t.hist, "pt", label)
+	}
 	s.steps++
 	if s.MaxSteps > 0 && s.steps > s.MaxSteps {
 		s.Livelock = true
@@ -309,7 +381,11 @@ func (s *S) pickLocked(running *thread) *thread {
 				return nil
 			}
 		}
-		s.Trace = append(s.Trace, PointRec{Kind: KindSched, N: len(enabled), Chosen: choice, RunningEnabled: runningEnabled, Label: enabled[choice].label, Thread: enabled[choice].id})
+		rec := PointRec{Kind: KindSched, N: len(enabled), Chosen: choice, RunningEnabled: runningEnabled, Label: enabled[choice].label, Thread: enabled[choice].id}
+		if TrackState {
+			rec.StateKey = s.stateKeyLocked("sched")
+		}
+		s.Trace = append(s.Trace, rec)
 	}
 	next := enabled[choice]
 	s.cur = next
@@ -340,7 +416,14 @@ func Choose(label string, n int) int {
 	if s.cur != nil {
 		tid = s.cur.id
 	}
-	s.Trace = append(s.Trace, PointRec{Kind: KindEnv, N: n, Chosen: choice, Label: label, Thread: tid})
+	rec := PointRec{Kind: KindEnv, N: n, Chosen: choice, Label: label, Thread: tid}
+	if TrackState {
+		rec.StateKey = s.stateKeyLocked(fmt.Sprintf("env|%d|%s", tid, label))
+		if s.cur != nil {
+			s.cur.hist = fold(s.cur.hist, "env", label, fmt.Sprint(choice))
+		}
+	}
+	s.Trace = append(s.Trace, rec)
 	return choice
 }
 
@@ -355,7 +438,14 @@ func Logf(format string, args ...any) {
 	if s.cur != nil {
 		tid = s.cur.id
 	}
-	s.Log = append(s.Log, fmt.Sprintf("[t%d] ", tid)+fmt.Sprintf(format, args...))
+	line := fmt.Sprintf("[t%d] ", tid) + fmt.Sprintf(format, args...)
+	s.Log = append(s.Log, line)
+	if TrackState {
+		s.ghist = fold(s.ghist, line)
+		if s.cur != nil {
+			s.cur.hist = fold(s.cur.hist, "log", line)
+		}
+	}
 	s.mu.Unlock()
 }
 
